@@ -142,7 +142,7 @@ TReset ==
     /\ muxInst' = 1 /\ sgen' = <<[rv |-> 1, ov |-> 1]>>
     /\ pobj' = <<NewObj(Routed[1], 1, 1, 1, 1, TRUE), NewObj(Routed[2], 1, 1, 1, 2, TRUE)>>
     /\ ns' = [p \in Pipes |-> IF p = Routed[1] THEN 1 ELSE IF p = Routed[2] THEN 2 ELSE 0]
-    /\ dead' = {} /\ lim' = [spent |-> {}, off |-> {}] /\ u' = Idle
+    /\ dead' = {} /\ lim' = Lim0 /\ u' = Idle
     /\ rq' = [r \in Reqs |-> NoReq]
     /\ cnt' = [srv |-> 0, pip |-> 0, other |-> 0, same |-> 0, req |-> [r \in Reqs |-> 0]]
     /\ last' = [a |-> "init"]
